@@ -227,6 +227,14 @@ theorem enter_proj (s : St) (q : String) :
     (s.enter q).ctx = s.ctx ∧ (s.enter q).log = s.log :=
   ⟨rfl, rfl, rfl, rfl, rfl, rfl, rfl, rfl, rfl, rfl, rfl, rfl, rfl, rfl⟩
 
+theorem setInput_proj (s : St) (v : Option Val) :
+    (s.setInput v).now = s.now ∧ (s.setInput v).state = s.state ∧ (s.setInput v).out = s.out ∧
+    (s.setInput v).input = v ∧ (s.setInput v).gate = s.gate ∧ (s.setInput v).active = s.active ∧
+    (s.setInput v).timers = s.timers ∧ (s.setInput v).nextId = s.nextId ∧ (s.setInput v).epoch = s.epoch ∧
+    (s.setInput v).next = s.next ∧ (s.setInput v).stopped = s.stopped ∧ (s.setInput v).failed = s.failed ∧
+    (s.setInput v).ctx = s.ctx ∧ (s.setInput v).log = s.log :=
+  ⟨rfl, rfl, rfl, rfl, rfl, rfl, rfl, rfl, rfl, rfl, rfl, rfl, rfl, rfl⟩
+
 theorem setNextEv_proj (s : St) (x : Option (TEvent × EvData × String)) :
     (s.setNextEv x).now = s.now ∧ (s.setNextEv x).state = s.state ∧ (s.setNextEv x).out = s.out ∧
     (s.setNextEv x).input = s.input ∧ (s.setNextEv x).gate = s.gate ∧ (s.setNextEv x).active = s.active ∧
